@@ -93,6 +93,12 @@ def initNames (R : List RCls) (c : Nat) : List Str :=
   | some r => (r.fields.filter (·.init)).map (·.name)
   | none => []
 
+/-- `{f.name for f in fields(cls)}` (serializable.py:891) -/
+def fieldNames (R : List RCls) (c : Nat) : List Str :=
+  match R[c]? with
+  | some r => r.fields.map (·.name)
+  | none => []
+
 def typeKey : Str := "_type_".toList
 
 /-- `_locate(path)` restricted to the classes of the table (paths are canonicalised to class names) -/
@@ -161,10 +167,10 @@ def sortByKey (key : α → Nat) : List α → List α
   | [] => []
   | x :: xs => insertByKey key x (sortByKey key xs)
 
-/-- the choice at serializable.py:870-894: candidates in set order, stable-sorted by the number of init fields,
-    first whose init-field names ⊇ `req` -/
+/-- the choice at serializable.py:870-896: candidates in set order, stable-sorted by their number of fields
+    (`len(fields(dc))`, line 884), first whose field names — ALL fields, `init=False` included (lines 891-893) — ⊇ `req` -/
 def pickSubclass (R : List RCls) (cands : List Nat) (req : List Str) : Option Nat :=
-  (sortByKey (fun c => (initNames R c).length) cands).find? (fun c => req.all (fun k => (initNames R c).contains k))
+  (sortByKey (fun c => (fieldNames R c).length) cands).find? (fun c => req.all (fun k => (fieldNames R c).contains k))
 
 /-- first non-`ok` outcome wins (exceptions propagate out of the comprehension) -/
 def seqOut : List Out → Except Out (List Val)
@@ -260,9 +266,9 @@ def fromDict (R : List RCls) (π : Nat → List Nat) : Nat → Nat → J → Opt
               let initArgs := (decoded.map (·.1)).filter (fun k => (initNames R cls).contains k)
               let req := extras ++ initArgs                           -- 880
               let cands := (π cls).filter (fun c => c ≠ cls)          -- 873-875
-              match pickSubclass R cands req with                     -- 884-891
-              | some child => fromDict R π fuel child d (some false)  -- 894
-              | none => .raise "RuntimeError".toList                  -- 896-903: unexpected keyword argument
+              match pickSubclass R cands req with                     -- 884-893
+              | some child => fromDict R π fuel child d (some false)  -- 896
+              | none => .raise "RuntimeError".toList                  -- 898-905: unexpected keyword argument
     | _ => .unmodelled "not a dict".toList
 
 /-- `base.from_dict(inst.to_dict(save_dc_types=save), drop_extra_fields=drop)` -/
